@@ -40,7 +40,7 @@ ASSUMPTIONS = [
 ]
 
 # (a name that starts with characters of the folder prefix ".xyz-")
-NAME = "zx-k"
+NAME = "zx-k=0.5 (\u03c3)"
 IDXVAR = {"sge": "SGE_TASK_ID", "pbs": "PBS_ARRAY_INDEX",
           "slurm": "SLURM_ARRAY_TASK_ID"}
 RANGE = {"sge": re.compile(r"^#\$ -t (\d+)-(\d+)$", re.M),
@@ -423,8 +423,63 @@ def real_interpreter(task):
             "why": why}
 
 
+def cli_module(task):
+    """conformance: the swept function lives in a module next to the crop
+    (pickled by reference); xyzpy-grow is started from another directory and
+    only told the parent directory"""
+    import importlib
+    import xyzpy as xyz
+
+    have = task["have"]
+    d = core.fresh_dir("c16m")
+    modname = "c16_usermod"
+    with open(os.path.join(d, modname + ".py"), "w") as fh:
+        fh.write("def fn(a, b):\n    return 100 * a + b\n")
+    sys.path.insert(0, d)
+    try:
+        sys.modules.pop(modname, None)
+        mod = importlib.import_module(modname)
+        combos = {"a": [1, 2, 3], "b": [10, 20]}
+        crop = xyz.Crop(fn=mod.fn, name=NAME, parent_dir=d, batchsize=2)
+        crop.sow_combos(combos, verbosity=0)
+        if have:
+            crop.grow(have, verbosity=0)
+        elsewhere = os.path.join(d, "elsewhere")
+        os.makedirs(elsewhere)
+        env = dict(os.environ, PYTHONPATH=core.REPO, HOME=d)
+        env.pop("CONDA_DEFAULT_ENV", None)
+        exe = os.path.join(os.path.dirname(sys.executable), "xyzpy-grow")
+        p = subprocess.run([exe, NAME, "--parent-dir", d], env=env,
+                           capture_output=True, text=True, cwd=elsewhere)
+        if p.returncode:
+            return {"ok": False, "task": task,
+                    "why": "xyzpy-grow exited %d: %s" % (
+                        p.returncode, p.stderr.strip()[-300:])}
+        c = xyz.Crop(name=NAME, parent_dir=d)
+        if not c.is_ready_to_reap():
+            return {"ok": False, "task": task, "why": "after xyzpy-grow the "
+                    "crop is missing batches %r" % (c.missing_results(),)}
+        res = c.reap()
+        want = tuple(tuple(100 * a + b for b in combos["b"])
+                     for a in combos["a"])
+        if tuple(map(tuple, res)) != want:
+            return {"ok": False, "task": task,
+                    "why": "reaped %r, expected %r" % (res, want)}
+        return {"ok": True, "task": task, "why": ""}
+    finally:
+        sys.path.remove(d)
+        sys.modules.pop(modname, None)
+
+
 def run(ctx):
     ctx.run_cases(cases(ctx.tier, ctx.seed))
+    for r in ctx.map_unordered("cli_module", [{"have": []}, {"have": [2]}]):
+        if not r["ok"]:
+            ctx.violation("C16|real|cli-module",
+                          "function from a module next to the crop, "
+                          "xyzpy-grow started elsewhere (finished before: "
+                          "%r): %s" % (r["task"]["have"], r["why"]),
+                          {"climod": r["task"]})
     tasks = [("cli", None, None, [2], None, {}),
              ("script", "slurm", "array", [], None, {}),
              ("script", "sge", "array", [1], None, {}),
@@ -455,6 +510,9 @@ def run(ctx):
 
 
 def replay(case):
+    if "climod" in case:
+        r = cli_module(case["climod"])
+        return [] if r["ok"] else [("C16|real|cli-module", r["why"])]
     if "real" in case:
         r = real_interpreter(tuple(case["real"]))
         t = r["task"]
